@@ -240,6 +240,35 @@ void trace_dim() {
         convertFirstPiolaKirchoffStressDerivativeToKirchhoffStressDerivative(dP, F, s);
     verif::outputs2("r", r, S, T);
   }
+  // ---------------------------------------------------------------- PK2 derivative -> PK1 derivative
+  {
+    Unit u(d + "unsyme");
+    stensor<N, Sym> S_;
+    verif::fill_inputs(S_, "S", S);
+    const tensor<N, Sym> r = unsyme(S_);
+    verif::outputs("r", r, T);
+  }
+  {
+    Unit u(d + "pk2");
+    stensor<N, Sym> s;
+    verif::fill_inputs(s, "s", S);
+    tensor<N, Sym> F;
+    verif::fill_inputs(F, "F", T);
+    const stensor<N, Sym> r = convertCauchyStressToSecondPiolaKirchhoffStress(s, F);
+    verif::outputs("r", r, S);
+  }
+  {
+    Unit u(d + "dpk1_pk2");
+    st2tost2<N, Sym> dS;
+    verif::fill_inputs2(dS, "dS", S, S);
+    tensor<N, Sym> F;
+    verif::fill_inputs(F, "F", T);
+    stensor<N, Sym> s;
+    verif::fill_inputs(s, "s", S);
+    const t2tot2<N, Sym> r =
+        convertSecondPiolaKirchhoffStressDerivativeToFirstPiolaKirchoffStressDerivative(dS, F, s);
+    verif::outputs2("r", r, T, T);
+  }
 }
 
 int main() {
